@@ -1418,7 +1418,9 @@ class ModuleNormaliser:
         rename = {}
         if cur_params != ref_params and len(cur_params) == len(ref_params):
             for c, r in zip(cur_params, ref_params):
-                if c != r:
+                # a parameter that changed its *name* goes back to the reference name; one that changed its *position*
+                # (both names exist on either side) is a different signature for every positional caller and stays as written
+                if c != r and c not in ref_params and r not in cur_params:
                     rename[c] = r
         ref_locals = [(n, k) for n, k in inv["locals"]]
         cur_locals = [(n, k) for n, k in cur if k != "param"]
